@@ -153,6 +153,8 @@ def run(rep: vlib.Reporter, tier: str, seed: int) -> None:
         "and JoinStep._merge_data"]
     big = tier == "thorough"
     found = False
+    from harness import srctie      # source-text tie (Props/SrcTie.v): thread_worker / CfwManager.set_error regenerated from the source text: a failure sets the error register, never the done register
+    found = (not srctie.check(rep)) or found
     # ---- protocol level: histories of real THREADING / MULTIPROCESSING runs must be traces of Model/Worker.v; every disagreement
     # (model / judge / observe) is a violation whose replay object is the case (first, so that its findings are among those printed)
     if worker_proto.report(rep, "C08", tier, seed):
@@ -291,6 +293,10 @@ def run(rep: vlib.Reporter, tier: str, seed: int) -> None:
 
 def replay(path: str) -> int:
     r = json.load(open(path))["replay"]
+    if r.get("kind") == "srctie":
+        from harness import srctie
+        srctie.replay(r, show=True)
+        return 0
     if r.get("kind") == "worker_proto":
         return worker_proto.replay_main(r, "C08")
     if r.get("kind") == "midpass":
